@@ -160,7 +160,7 @@ def odd_structure(rng, root, L, mp):
 
 
 def odd_tree(rng, root):
-    L = gen.random_layout(rng)
+    L = gen.random_layout(rng, dupnames=True)
     L.write(root)
     notes = []
     for _ in range(rng.choice([0, 1, 2, 3])):
